@@ -2,7 +2,7 @@
    stalls; the bridging pipe delivers exactly once in order.
    This file contains only statements, each closed by [exact]. *)
 From Coq Require Import ZArith List Bool.
-From BV Require Import Model.DataQueue Model.Pipe Model.QueueRouting Proofs.DataQueue Proofs.Pipe Proofs.QueueRouting Gen.C04Shape.
+From BV Require Import Model.DataQueue Model.DataQueueFail Model.Pipe Model.QueueRouting Proofs.DataQueue Proofs.DataQueueFail Proofs.Pipe Proofs.QueueRouting Gen.C04Shape.
 Import ListNotations.
 Open Scope Z_scope.
 
@@ -148,6 +148,41 @@ Example C04_routing_nonvacuous :
       [HOpen 16 1; HSend 100 16; HDone 1 16; HCloseOwn 16; HOpen 16 0; HSend 200 16; HSend 201 16; HDone 1 16] in
   sent = [(100, 16); (200, 16); (201, 16)] /\ route 16 (h_links s) = Some 0%nat.
 Proof. vm_compute. split; reflexivity. Qed.
+
+(* ---- hand-overs that raise (a transport write error inside the send callback) ----
+   Model/DataQueueFail.v: `fails p` says whether handing packet p to the controller raises.  For EVERY failure
+   predicate and every history: the credit bound and in-flight = sum of per-connection counts (all >= 0) still hold,
+   and per step credits are taken for exactly the packets whose hand-over returned; the packet whose hand-over raised
+   is the only one dropped, order is kept; and the failing model with no failure is the plain model. *)
+Theorem C04_failing_handover_invariant : forall fails maxf ops,
+  0 <= maxf -> ops_ok ops -> inv_f (fst (q_run_f fails (q_init maxf) ops)).
+Proof.
+  intros fails maxf ops Hm Hok.
+  exact (run_inv_f fails ops (q_init maxf) Hok (inv_inv_f _ (inv_init maxf Hm))).
+Qed.
+Print Assumptions C04_failing_handover_invariant.
+
+Theorem C04_failed_handover_costs_no_credit : forall fails s o t,
+  q_pre s o = Some t ->
+  let '(s', sent, r) := q_step_f fails s o in
+  q_inflight s' = q_inflight t + Z.of_nat (length sent) /\
+  sum_conns (q_conns s') = sum_conns (q_conns t) + Z.of_nat (length sent) /\
+  sent_ok fails sent /\
+  (if r then exists p h, q_wait t = sent ++ (p, h) :: q_wait s' /\ fails p = true /\ q_inflight s' < q_max s'
+   else q_wait t = sent ++ q_wait s' /\ (q_wait s' <> [] -> q_max s' <= q_inflight s')).
+Proof. exact step_f_accounting. Qed.
+Print Assumptions C04_failed_handover_costs_no_credit.
+
+Theorem C04_no_failure_is_the_plain_model : forall fails s o,
+  (forall p, fails p = false) -> q_step_f fails s o = (q_step s o, false).
+Proof. exact q_step_f_nofail. Qed.
+Print Assumptions C04_no_failure_is_the_plain_model.
+
+(* Non-vacuity: with one buffer, the hand-over of packet 100 raises; 101 and 102 still get through. *)
+Example C04_failing_nonvacuous :
+  snd (q_run_f (in_list [100]) (q_init 1) [Enqueue 100 1; Enqueue 101 1; Enqueue 102 1; Completed 1 1]) =
+  [([], true); ([(101, 1)], false); ([], false); ([(102, 1)], false)].
+Proof. vm_compute. reflexivity. Qed.
 
 (* Non-vacuity: a concrete history reaching a state with waiting packets. *)
 Example C04_nonvacuous :
